@@ -402,7 +402,8 @@ func genNode(r *rng.R, d *doc, depth int) *node {
 	return &node{kind: "shape", attrs: genAttrs(r, d, true, depth), sh: genShape(r, d), void: r.P(2, 3)}
 }
 
-var typePool = []string{"rect", "circle", "ellipse", "line", "polyline", "polygon", "path", "g", "svg", "*", ""}
+// no "svg": the root element is styled before the style sheet has been read (single pass), see design/C19.md
+var typePool = []string{"rect", "circle", "ellipse", "line", "polyline", "polygon", "path", "g", "a", "*", ""}
 
 func genSnode(r *rng.R, first bool, d *doc) snode {
 	n := snode{typ: rng.Pick(r, typePool)}
@@ -1054,28 +1055,30 @@ func segsCoq(segs []pd.Seg) string {
 func layerGeomCoq(p *canvas.Path) (string, bool) {
 	var xs []string
 	pt := func(x, y float64) string { return "(" + qf(x) + "," + qf(y) + ")" }
-	ok := true
-	for _, s := range p.Segments() {
+	segs, err := pd.Decode(p.Data())
+	ok := err == nil
+	for _, s := range segs {
 		switch s.Cmd {
-		case canvas.MoveToCmd:
-			xs = append(xs, "(GM "+pt(s.End.X, s.End.Y)+")")
-		case canvas.LineToCmd:
-			xs = append(xs, "(GL "+pt(s.End.X, s.End.Y)+")")
-		case canvas.QuadToCmd:
-			cp := s.CP1()
-			xs = append(xs, "(GQ "+pt(cp.X, cp.Y)+" "+pt(s.End.X, s.End.Y)+")")
-		case canvas.CubeToCmd:
-			c1, c2 := s.CP1(), s.CP2()
-			xs = append(xs, "(GC "+pt(c1.X, c1.Y)+" "+pt(c2.X, c2.Y)+" "+pt(s.End.X, s.End.Y)+")")
-		case canvas.ArcToCmd:
-			rx, ry, rot, large, sweep := s.Arc()
-			deg := rot * 180.0 / math.Pi
-			if deg != math.Trunc(deg*8)/8 {
+		case 'M':
+			xs = append(xs, "(GM "+pt(s.X, s.Y)+")")
+		case 'L':
+			xs = append(xs, "(GL "+pt(s.X, s.Y)+")")
+		case 'Q':
+			xs = append(xs, "(GQ "+pt(s.A[0], s.A[1])+" "+pt(s.X, s.Y)+")")
+		case 'C':
+			xs = append(xs, "(GC "+pt(s.A[0], s.A[1])+" "+pt(s.A[2], s.A[3])+" "+pt(s.X, s.Y)+")")
+		case 'A':
+			// rx ry phi(radians) flags(large = 1, sweep = 2) x y
+			deg := s.A[2] * 180.0 / math.Pi
+			if rd := math.Round(deg*8) / 8; math.Abs(rd-deg) < 1e-9 {
+				deg = rd
+			} else {
 				ok = false
 				deg = 0
 			}
-			xs = append(xs, "(GA "+qf(rx)+" "+qf(ry)+" "+qf(deg)+" "+boolS(large)+" "+boolS(sweep)+" "+pt(s.End.X, s.End.Y)+")")
-		case canvas.CloseCmd:
+			large, sweep := s.A[3] == 1 || s.A[3] == 3, s.A[3] == 2 || s.A[3] == 3
+			xs = append(xs, "(GA "+qf(s.A[0])+" "+qf(s.A[1])+" "+qf(deg)+" "+boolS(large)+" "+boolS(sweep)+" "+pt(s.X, s.Y)+")")
+		case 'Z':
 			xs = append(xs, "GZ")
 		}
 	}
